@@ -405,7 +405,7 @@ func TestC05(t *testing.T) {
 	hx.Check[c05Case]{
 		Property: "C05", Part: "populations",
 		Rule:  "generated chains of 1-4 steps, thresholds 1-3, sometimes more valid links than the threshold, every step with REQUIRE <honest product> / DISALLOW secret; optionally one counted link differing in exactly one material/product path, digest, algorithm name or presence; optionally an uncounted decoy link whose artifacts would flip a rule if used; optionally agreed artifacts that violate a rule; accept iff counted links agree and the reference rule interpreter accepts the agreed artifacts; summary link name/materials/products checked on accept; ReduceStepsMetadata observed directly; non-trivial = >=2 counted links for a step or a decoy; distinct by case JSON",
-		Cases: hx.Pick(500, 15000),
+		Cases: hx.Pick(500, 80000),
 		Gen:   c05Gen, Run: c05Run,
 	}.Execute(t)
 }
